@@ -123,7 +123,10 @@ fn lsp_sweep(text: &str, fails: &mut Vec<(String, PanicInfo)>, transitions: &mut
                     partial_result_params: Default::default()
                 }));
                 let lines: Vec<&str> = text.split('\n').collect();
-                let nl = lines.len().min(40);
+                // every request reads the whole note: on the scale documents the sweep is narrowed so
+                // that the horizon measures single requests, not their number
+                let (max_lines, max_cols) = if text.len() > 50_000 { (4, 6) } else { (40, 60) };
+                let nl = lines.len().min(max_lines);
                 for l in 0..nl + 2 {
                     let acts = req!("codeAction", srv.handle_code_action(&CodeActionParams {
                         text_document: td.clone(),
@@ -138,7 +141,7 @@ fn lsp_sweep(text: &str, fails: &mut Vec<(String, PanicInfo)>, transitions: &mut
                             req!(format!("codeAction/resolve[{}]", kind), srv.handle_code_action_resolve(&ca));
                         }
                     }
-                    let len16 = lines.get(l).map(|s| s.encode_utf16().count()).unwrap_or(0).min(60);
+                    let len16 = lines.get(l).map(|s| s.encode_utf16().count()).unwrap_or(0).min(max_cols);
                     for c in 0..len16 + 2 {
                         req!("definition", srv.handle_goto_definition(GotoDefinitionParams {
                             text_document_position_params: tdp(l as u32, c as u32),
@@ -213,7 +216,7 @@ impl Engine for C03 {
         "every document of the space is driven through parse/format, server start-up with a linking note, didChange to and away from it, didSave, and every read request (formatting, symbols, hints, references, completion, definition + prepareRename at every (line, character), codeAction at every line + resolve of every offered action); start-up/notifications on an 8 MiB stack, requests on 2 MiB threads; scale families run one subprocess each with a wall horizon. non-trivial = formatting changes the text or a panic occurs".into()
     }
     fn bound(&self, tier: Tier) -> String {
-        format!("{}; scale families {:?} at n in {:?}, horizon 60 s", doc_bound(tier), space::SCALE_FAMILIES, scale_sizes(tier))
+        format!("{}; scale families {:?} at n in {:?}, horizon 60 s of CPU time per case", doc_bound(tier), space::SCALE_FAMILIES, scale_sizes(tier))
     }
     fn assumptions(&self) -> Vec<String> {
         let mut a = doc_assumptions();
@@ -229,7 +232,9 @@ impl Engine for C03 {
         space::doc_space(tier, emit);
     }
     fn horizon_s(&self) -> Option<u64> {
-        Some(60)
+        // longer than the horizon the scale families get in their own subprocess (60 s of CPU time,
+        // 240 s of wall time), so that it is always the inner horizon that ends such a run
+        Some(300)
     }
     fn features(&self, case: &str) -> Vec<String> {
         if let Some(rest) = case.strip_prefix("\u{1}scale") {
@@ -242,7 +247,8 @@ impl Engine for C03 {
         if let Some(rest) = case.strip_prefix("\u{1}scale:") {
             // outer: isolate in a subprocess with a horizon
             let inner = format!("\u{1}scale!:{}", rest);
-            let r = run_case_subprocess("C03", ctx.tier, &inner, &ctx.active, Some(60));
+            // horizon: 60 s of CPU time (load-independent), 240 s of wall time for runs that wait
+            let r = run_case_subprocess_cpu("C03", ctx.tier, &inner, &ctx.active, Some(240), Some(60));
             let parts: Vec<&str> = rest.split(':').collect();
             let feats = scale_features(parts[0], parts[1].parse().unwrap_or(0));
             let failures = match r.died {
@@ -295,6 +301,9 @@ fn scale_features(fam: &str, n: usize) -> Vec<String> {
         if n >= t {
             f.push(format!("siblings>={}", t));
             f.push(format!("scale:{}>={}", fam, t));
+            if fam.starts_with("nested-") && fam != "nested-headings" {
+                f.push(format!("nesting>={}", t));
+            }
         }
     }
     f
@@ -307,7 +316,7 @@ fn c03_run_scale(text: &str) -> CaseResult {
     if let Err(p) = p1(DOC, text, "") {
         fails.push(("from_markdown/to_markdown".into(), p));
     }
-    // keep the LSP sweep affordable: positions are capped inside lsp_sweep (40 lines x 60 columns)
+    // keep the LSP sweep affordable: positions are capped inside lsp_sweep (40 lines x 60 columns; 4 x 6 on texts above 50 kB)
     lsp_sweep(text, &mut fails, &mut tr);
     let mut failures: Vec<Failure> = vec![];
     for (entry, p) in &fails {
